@@ -345,8 +345,21 @@ pub fn gen_state<S: Src, const N: usize>(s: &mut S, need_reach: bool) -> St<N> {
             st.kind[slot] = K_FULL;
             st.val[slot] = v;
         });
+        // turn `dels` of them into tombstones (FULL -> DELETED never cuts a probe chain); tables
+        // smaller than a group never hold tombstones in a quiescent state (F4), so not there
+        if N >= Group::WIDTH {
+            let mut d = 0;
+            let start = s.below(N);
+            for_upto!(j, N, {
+                let idx = (start + j * 5) & (N - 1);
+                if d < dels && st.kind[idx] == K_FULL {
+                    st.kind[idx] = K_DELETED;
+                    d += 1;
+                }
+            });
+        }
         // then a random history of specification-level removals (erase rule F3) and insertions
-        let ops = s.below(2 * N + 1);
+        let ops = if s.below(3) == 0 { 0 } else { s.below(2 * N + 1) };
         for_upto!(o_, ops, {
             let idx = s.below(N);
             if st.kind[idx] == K_FULL && s.below(3) != 0 {
